@@ -100,6 +100,9 @@ def check(run):
                 ok = False
                 why = 'no slot assignment found (idiom changed)'
             run.check(ok, 'R1-GUARD', fld, fn.norm + fn.sig, fn.loc(), why, 'every path that sets an accept slot first writes ' + fld)
+    run.clause('R1-local no scalar local is read before it was assigned on every path (definite assignment over the CFG)')
+    nl = engines.uninit_local_reads(run, [f for f in fx.repo_functions() if f.file.startswith(simlib.REPO_PREFIX)])
+    run.ok('R1', 'local-init-scan', 'library', '', '%d scalar locals declared without initialiser in the library' % nl, nontrivial=False)
     run.clause('R13f no value is read from storage that was already released: element references are not used after the erase that frees them')
     nr = engines.dangling_element_refs(run, [f for f in fx.repo_functions() if f.file.startswith(simlib.REPO_PREFIX)], rule='R13f')
     if nr < 4:
